@@ -72,6 +72,15 @@ func goomDecode(b []byte) (o obs) {
 		}
 	}()
 	in, err := Decode(b, 64)
+	if err == nil {
+		// anchor inst.go: consumers call Inst.String() / Arg.String() (fix_addr_amd64.go:89, addr.go:31); a panic there counts
+		_ = in.String()
+		for _, a := range in.Args {
+			if a != nil {
+				_ = a.String()
+			}
+		}
+	}
 	return obs{errClass(err), in.Len, in.Op.String(), in.PCRel, in.PCRelOff, in.Opcode}
 }
 
@@ -129,6 +138,22 @@ func TestVerifC16(t *testing.T) {
 	defer func() { iw.Flush(); ifile.Close() }()
 	sc := bufio.NewScanner(f)
 	sc.Buffer(make([]byte, 1<<16), 1<<20)
+	// goom's own coverage hook (decode.go:220): which table positions did the stream execute?
+	decoderCover = make([]bool, len(decoder))
+	defer func() {
+		cf, err := os.Create(os.Getenv("VERIF_OUT") + ".cover")
+		if err == nil {
+			cw := bufio.NewWriter(cf)
+			for pc, c := range decoderCover {
+				if c {
+					fmt.Fprintln(cw, pc)
+				}
+			}
+			cw.Flush()
+			cf.Close()
+		}
+		decoderCover = nil
+	}()
 	for i := 0; sc.Scan(); i++ {
 		toks := strings.Fields(sc.Text())
 		if len(toks) != 2 || toks[0] != "c16.dec" {
